@@ -330,6 +330,36 @@ def invariant_target_loop(chk: Check, tier: str, work):
     chk.sample({"invariant_target_loop": {k: info[k] for k in ("covered_n", "missing_n", "exitcode")}})
 
 
+def invariant_target_unsupported(chk: Check, tier: str):
+    """A target call is stopped by something halmos does not support (MSTORE at a symbolic offset, resp. an
+    unsupported opcode) on exactly the path that breaks the invariant: a clean PASS without any report is wrong."""
+    for tag, stuck in (("symbolic-memory-offset", arg(0) + [("PUSH", 1), "SWAP1", "MSTORE"]), ("unsupported-opcode", [("RAW", bytes([0x49])), "POP"])):
+        # poke(x): if (x > 100) { <stuck>; sstore(0, 2) } else { sstore(0, 1) }
+        poke = [("PUSH", 100)] + arg(0) + ["GT", ("PUSHL", "big"), "JUMPI", ("PUSH", 1), ("PUSH", 0), "SSTORE", "STOP", ("LABEL", "big")] + stuck + [("PUSH", 2), ("PUSH", 0), "SSTORE", "STOP"]
+        get = [("PUSH", 0), "SLOAD", ("PUSH", 0), "MSTORE", ("PUSH", 32), ("PUSH", 0), "RETURN"]
+        target = Contract("Poker", [Fn("poke(uint256)", poke), Fn("get()", get, mutability="view")], filename="src/Poker.sol")
+        tinit = target.creation()
+        setup = [("PUSHN", 2, len(tinit)), ("PUSHL", "tinit"), ("PUSH", 0x100), "CODECOPY", ("PUSHN", 2, len(tinit)), ("PUSH", 0x100), ("PUSH", 0), "CREATE",
+                 ("PUSH", 0), "SSTORE", "STOP"]
+        inv = [("PUSHN", 32, int(selector("get()"), 16) << 224), ("PUSH", 0), "MSTORE",
+               ("PUSH", 32), ("PUSH", 0x40), ("PUSH", 4), ("PUSH", 0), ("PUSH", 0), ("PUSH", 0), "SLOAD", ("PUSH", 0xFFFFFF), "CALL", "POP",
+               ("PUSH", 0x40), "MLOAD", ("PUSH", 2), "EQ", ("PUSHL", "bad"), "JUMPI", "STOP", ("LABEL", "bad")] + panic(1)
+        test = Contract("InvU", [Fn("setUp()", setup), Fn("invariant_not_two()", inv)], data=[("MARK", "tinit"), ("RAW", tinit)])
+        out = run_contract(test, others=[target], cli=("--invariant-depth", "1"))
+        if out.exception:
+            raise MachineryError(out.exception)
+        r = out.by_sig().get("invariant_not_two()")
+        if r is None:
+            raise MachineryError(f"no invariant result: {out.stdout[-500:]}")
+        text = out.stdout + out.logs
+        reported = flagged(out, "poke") or flagged(out, "invariant_not_two") or any(w in text for w in ("ERROR", "Error", "symbolic memory offset", "Unsupported", "unsupported", "NotConcrete"))
+        chk.count("traces_validated_against_impl")
+        chk.nontrivial(("invariant-target-unsupported", tag))
+        if r.exitcode == 0 and not reported:
+            chk.violation(f"invariant-target-unsupported:{tag}", f"invariant test: the only call that breaks the invariant (poke(x), x > 100) is stopped by {tag}; "
+                          "invariant_not_two() is a clean PASS and nothing reports the incomplete exploration", {"halmos_output": text[-2000:]})
+
+
 def run(chk: Check, tier: str):
     work = workdir("c10")
     try:
@@ -338,6 +368,7 @@ def run(chk: Check, tier: str):
         limits_and_unsupported(chk, tier)
         setup_loop(chk, tier)
         invariant_target_loop(chk, tier, work)
+        invariant_target_unsupported(chk, tier)
     finally:
         cleanup(work)
     chk.cov["rule"] = (
